@@ -112,11 +112,16 @@ func parseJSONStream(out []byte, dir string) []binDiag {
 }
 
 func runStandalone(bin, dir string, args []string, env []string, patterns ...string) binRun {
+	return runStandaloneAt(bin, dir, dir, args, env, patterns...)
+}
+
+// runStandaloneAt starts the tool in cwd (inside the module rooted at dir)
+func runStandaloneAt(bin, cwd, dir string, args []string, env []string, patterns ...string) binRun {
 	if len(patterns) == 0 {
 		patterns = []string{"./..."}
 	}
 	cmd := exec.Command(bin, append(append([]string{"-json"}, args...), patterns...)...)
-	cmd.Dir = dir
+	cmd.Dir = cwd
 	cmd.Env = cleanEnv(env...)
 	var so, se bytes.Buffer
 	cmd.Stdout, cmd.Stderr = &so, &se
@@ -344,6 +349,37 @@ func binDrivers(o corrOpts, sum *res.Summary, r *rng.R, bin string) {
 			cmp(fmt.Sprintf("govet-subset(%d pkgs)", len(sel)), runKeys(rv, notTest), inPats(sel))
 		}
 	}
+	// a directory-style exclude-paths entry naming a declaring package: the configuration, not the driver or the
+	// working directory of the tool process, decides which files are excluded
+	{
+		var tok string
+		for _, p := range pats {
+			if strings.Contains(p, "/d0") {
+				tok = strings.TrimPrefix(p, "./")
+				if r.Chance(1, 2) {
+					break
+				}
+			}
+		}
+		if tok != "" {
+			prog := strings.SplitN(tok, "/", 2)[0]
+			env := []string{"GOGREEMENT_EXCLUDE_PATHS=" + tok + "/"}
+			saved := baseKeys
+			cfgBase := runStandalone(bin, dir, nil, env)
+			baseKeys = runKeys(cfgBase, notTest)
+			sum.AddN("diagnostics-with-excluded-directory", len(baseKeys))
+			for _, k := range baseKeys {
+				if strings.HasPrefix(k, tok+"/") {
+					sum.Disagree(res.Disagreement{Kind: "impl-vs-spec", Input: "drivers exclude-paths=" + tok + "/ standalone ./...", Impl: k, Model: "no diagnostic in the excluded directory", Clause: "C14 / C06"})
+				}
+			}
+			inProg := func(k string) bool { return strings.HasPrefix(k, prog+"/") }
+			cmp("govet-excluded-dir ./"+prog+"/...", runKeys(runVet(bin, dir, nil, env, "./"+prog+"/..."), notTest), inProg)
+			cmp("standalone-from-subdir "+prog, runKeys(runStandaloneAt(bin, filepath.Join(dir, prog), dir, nil, env, "./..."), notTest), inProg)
+			cmp("standalone-from-excluded-dir "+tok, runKeys(runStandaloneAt(bin, filepath.Join(dir, tok), dir, nil, env, "exp/"+prog+"/..."), notTest), inProg)
+			baseKeys = saved
+		}
+	}
 	// in-process, with the checker's fact sanity check (gob round trip of every fact)
 	var roots []*packages.Package
 	for _, p := range pkgs {
@@ -368,7 +404,7 @@ func binDrivers(o corrOpts, sum *res.Summary, r *rng.R, bin string) {
 		sort.Strings(l)
 		cmp("inprocess-sanitycheck ./...", l, nil)
 	}
-	sum.Rule = "generated import DAGs (declaring packages importing each other, user packages importing them; annotation values across the grammar) analysed by: standalone ./..., go vet -vettool (facts via vetx files), leaf-only and random subsets/orders of packages under both drivers, in-process with the checker's gob sanity check; the normalised (file:line:col:code) sets must all equal the standalone ./... set restricted to the named packages; non-trivial = run with diagnostics"
+	sum.Rule = "generated import DAGs (declaring packages importing each other, user packages importing them; annotation values across the grammar) analysed by: standalone ./..., go vet -vettool (facts via vetx files), leaf-only and random subsets/orders of packages under both drivers, in-process with the checker's gob sanity check; plus, under an exclude-paths entry naming a declaring package's directory: go vet, and standalone runs started from the program's directory and from inside the excluded directory; the normalised (file:line:col:code) sets must all equal the standalone ./... set restricted to the named packages; non-trivial = run with diagnostics"
 }
 
 // ---------------------------------------------------------------- C08
@@ -613,7 +649,7 @@ func binWellformed(o corrOpts, sum *res.Summary, r *rng.R, bin string) {
 					bad = fmt.Sprintf("help link %q, the category's page is %q", u, urlOf[m[1]])
 				}
 			} else {
-				bad = "no help link although the source file is readable"
+				bad = "no documentation link in the message"
 			}
 		}
 		if bad != "" {
